@@ -207,6 +207,20 @@ def gen_gfa1(rng, nseg=None, with_paths=True, with_containments=True, tags=True,
                 f += rand_tags(rng, {}, 1)
             lines.append('\t'.join(f))
             info['paths'].append({'name': name, 'steps': steps, 'ovs': ovs_s})
+    if with_paths and rng.random() < 0.25 and nseg >= 2:
+        # a circular path (as many overlaps as segments) over two links added for it between a pair not yet linked
+        pairs = [(a, b) for a in names for b in names if a < b and
+                 not any(set([m['from'], m['to']]) == set([a, b]) for m in info['links'])]
+        if pairs:
+            a, b = rng.choice(pairs)
+            oa, ob = rng.choice('+-'), rng.choice('+-')
+            o1, o2 = rng.choice(['1M', '2M', '1M1I1M']), rng.choice(['1M', '1M1D1M', '2M'])
+            lines.append('\t'.join(['L', a, oa, b, ob, o1]))
+            lines.append('\t'.join(['L', b, ob, a, oa, o2]))
+            info['links'].append({'from': a, 'fo': oa, 'to': b, 'to_o': ob, 'ov': o1})
+            info['links'].append({'from': b, 'fo': ob, 'to': a, 'to_o': oa, 'ov': o2})
+            lines.append('\t'.join(['P', 'pcirc', '%s%s,%s%s' % (a, oa, b, ob), '%s,%s' % (o1, o2)]))
+            info['paths'].append({'name': 'pcirc', 'steps': [(a, oa), (b, ob)], 'ovs': '%s,%s' % (o1, o2), 'circular': True})
     if with_paths and rng.random() < 0.3:
         # a path over one segment needs no link at all
         n = rng.choice(names)
